@@ -3,7 +3,7 @@ package main
 // C31 — only blocks fully covered by another block are hidden as duplicates.
 //
 // op:  dd.filter <metas>
-//        metas = <id>:<group>:<src>,<src>,… ; …      ids/sources are small numbers (ULID = testULID(n),
+//        metas = <id>:<group>:<level>:<src>,<src>,… ; …      ids/sources are small numbers (ULID = testULID(n),
 //                                                    monotone in n), group = number of the compaction group
 //                                                    (labels {"g": group/3}, resolution [0,5m,1h][group%3]);
 //                                                    sources "-" = empty list
@@ -40,8 +40,8 @@ func init() {
 }
 
 type ddMeta struct {
-	id, group int
-	sources   []int
+	id, group, level int
+	sources          []int
 }
 
 func parseDDMetas(s string) ([]ddMeta, bool) {
@@ -49,17 +49,18 @@ func parseDDMetas(s string) ([]ddMeta, bool) {
 	seen := map[int]bool{}
 	for _, t := range hlib.Split(s, ";") {
 		p := strings.Split(t, ":")
-		if len(p) != 3 {
+		if len(p) != 4 {
 			return nil, false
 		}
 		id, e1 := strconv.Atoi(p[0])
 		g, e2 := strconv.Atoi(p[1])
-		if e1 != nil || e2 != nil || id < 0 || id > 60000 || g < 0 || g > 1000 || seen[id] {
+		lv, e3 := strconv.Atoi(p[2])
+		if e1 != nil || e2 != nil || e3 != nil || id < 0 || id > 60000 || g < 0 || g > 1000 || lv < 0 || lv > 100 || seen[id] {
 			return nil, false
 		}
 		seen[id] = true
-		m := ddMeta{id: id, group: g}
-		for _, x := range hlib.Split(p[2], ",") {
+		m := ddMeta{id: id, group: g, level: lv}
+		for _, x := range hlib.Split(p[3], ",") {
 			v, err := strconv.Atoi(x)
 			if err != nil || v < 0 || v > 60000 {
 				return nil, false
@@ -82,7 +83,7 @@ func buildDDMap(ms []ddMeta, order []int) map[ulid.ULID]*metadata.Meta {
 			src = append(src, testULID(s))
 		}
 		out[testULID(m.id)] = &metadata.Meta{
-			BlockMeta: tsdb.BlockMeta{ULID: testULID(m.id), Version: 1, Compaction: tsdb.BlockMetaCompaction{Level: 1, Sources: src}},
+			BlockMeta: tsdb.BlockMeta{ULID: testULID(m.id), Version: 1, Compaction: tsdb.BlockMetaCompaction{Level: m.level, Sources: src}},
 			Thanos: metadata.Thanos{Labels: map[string]string{"g": strconv.Itoa(m.group / 3)},
 				Downsample: metadata.ThanosDownsample{Resolution: ddResolutions[m.group%3]}},
 		}
@@ -255,7 +256,7 @@ func showDDMetas(ms []ddMeta) string {
 		for i, s := range m.sources {
 			ss[i] = strconv.Itoa(s)
 		}
-		parts = append(parts, fmt.Sprintf("%d:%d:%s", m.id, m.group, hlib.Join(ss, ",")))
+		parts = append(parts, fmt.Sprintf("%d:%d:%d:%s", m.id, m.group, m.level, hlib.Join(ss, ",")))
 	}
 	return hlib.Join(parts, ";")
 }
@@ -270,7 +271,11 @@ func genC31(c *hlib.Ctx) {
 		universe := r.Range(2, 12) // source ids 100..100+universe
 		var ms []ddMeta
 		for b := 0; b < nBlocks; b++ {
-			m := ddMeta{id: ids[b] + 1, group: groups[r.Intn(nGroups)]}
+			m := ddMeta{id: ids[b] + 1, group: groups[r.Intn(nGroups)], level: 1}
+			if r.Chance(1, 2) {
+				m.level = r.Range(1, 4)
+			}
+			c.Count(fmt.Sprintf("level:%d", m.level))
 			switch r.Intn(12) {
 			case 0, 1, 2, 3: // random subset
 				c.Count("src:subset")
@@ -292,7 +297,12 @@ func genC31(c *hlib.Ctx) {
 			case 6, 7: // copy of an earlier block's sources, possibly shuffled (equal sets)
 				if len(ms) > 0 {
 					c.Count("src:equal-set")
-					src := ms[r.Intn(len(ms))].sources
+					other := ms[r.Intn(len(ms))]
+					src := other.sources
+					if r.Chance(1, 2) { // a single-block compaction result: same sources, next level, same group
+						m.level, m.group = other.level+1, other.group
+						c.Count("src:equal-set-higher-level")
+					}
 					for _, j := range r.Perm(len(src)) {
 						m.sources = append(m.sources, src[j])
 					}
